@@ -67,7 +67,7 @@ COMPONENTS = {
         "memory_input, buffer_input (require/discard/size/empty/end), input_with_depth, rewind and unwind guards",
         "try_catch_*, must family, raise, state<>, change_state/states/action/control, enable/disable(_action), limit_bytes, limit_depth, check_bytes, discard rules/actions",
         "parse_tree::parse + make_control (C12), state_control + coverage_state (C08)",
-        "must_if<>::control (C05), add_state (C13), control_action, remove_first_state, remove_last_states, rotate_states_right/left, reverse_states, tracer<> (C08 fixed-grammar jobs)",
+        "must_if<>::control, parse_nested (C05), add_state (C13), control_action, remove_first_state, remove_last_states, rotate_states_right/left, reverse_states, tracer<> (C08 fixed-grammar jobs)",
         "string_input, argv_input, read_input (+ read_file_stdio, glibc stdio), mmap_input/file_input (+ mmap_file_posix, kernel mmap on a real temp file), cstream_input (+ cstream_reader, glibc fread over fopencookie), istream_input (+ istream_reader, libstdc++ istream::read) (C07 I/O jobs)",
     ],
     "stub": [
